@@ -53,6 +53,7 @@ func runPacks(r *Run, cases []packCase, packSize int, variants []packVariant, si
 
 func runPacksWith(r *Run, cases []packCase, packSize int, variants []packVariant, sigPrefix string, refOf func(src string) string, st *packStats, srcOf func([]packCase) string) {
 	pool := r.Pool()
+	variantsAll := variants
 	byID := map[string]packCase{}
 	for _, c := range cases {
 		byID[c.ID] = c
@@ -86,8 +87,20 @@ func runPacksWith(r *Run, cases []packCase, packSize int, variants []packVariant
 		}
 		packs = append(packs, cases[i:j])
 	}
-	parallel(len(packs), pool.Size(), func(pi int) {
-		pk := packs[pi]
+	// runPack executes one pack under the variants in only (all of them when only is nil). A pack in which either side
+	// ran into the event or time limit decides nothing for its cases: it is split and its parts run again, down to
+	// single cases; a single case that still does not finish makes the run inconclusive instead of being dropped.
+	var runPack func(pk []packCase, only map[string]bool)
+	runPack = func(pk []packCase, only map[string]bool) {
+		variants := variants
+		if only != nil {
+			variants = nil
+			for _, v := range variantsAll {
+				if only[v.Name] {
+					variants = append(variants, v)
+				}
+			}
+		}
 		src := srcOf(pk)
 		if refOf != nil {
 			src = refOf(src) // wrapper applied to the program itself (input of esbuild and reference alike)
@@ -180,7 +193,19 @@ func runPacksWith(r *Run, cases []packCase, packSize int, variants []packVariant
 				continue
 			}
 			if cmp.Inconclusive {
-				r.Count("inconclusive_packs", 1)
+				r.Count("inconclusive_packs_split", 1)
+				if len(pk) == 1 {
+					r.Inconclusive(fmt.Sprintf("case %s under %s did not finish within the executor's limits (reference: %s, output: %s): %s", pk[0].Sig, used[vi].Name, cmp.TermA, cmp.TermB, trunc(pk[0].Body, 200)))
+					continue
+				}
+				step := (len(pk) + 7) / 8
+				for i := 0; i < len(pk); i += step {
+					j := i + step
+					if j > len(pk) {
+						j = len(pk)
+					}
+					runPack(pk[i:j], map[string]bool{used[vi].Name: true})
+				}
 				continue
 			}
 			if strings.HasPrefix(cmp.TermB, "syntax") && !strings.HasPrefix(cmp.TermA, "syntax") {
@@ -257,5 +282,6 @@ func runPacksWith(r *Run, cases []packCase, packSize int, variants []packVariant
 				r.Violation(sig, fmt.Sprintf("behaviour differs under %s: %s  ref=%v out=%v", used[vi].Name, trunc(c.Body, 300), trunc(fmt.Sprint(d.A), 200), trunc(fmt.Sprint(d.B), 200)), rep)
 			}
 		}
-	})
+	}
+	parallel(len(packs), pool.Size(), func(pi int) { runPack(packs[pi], nil) })
 }
